@@ -387,6 +387,7 @@ func propC08(w *World, r *Report) {
 		}
 	}
 	r.Floor("N5", 2)
+	checkParserEdgeArg(w, r, "N7") // which border zeros are tolerated is the configured edge width, always
 	// N6: the processor's use of the frame
 	runs, err := getMotionRuns(w)
 	if err == nil {
